@@ -162,6 +162,13 @@ func runMode(ctx context.Context, c *Case, m Mode, dir string) (res ModeResult) 
 	if applyErr != nil {
 		res.ErrText = applyErr.Error()
 	}
+	fkAfter := -1
+	if m.Tx == "none" || m.Tx == "file" {
+		// the connection's setting after the run (OpenTx / the plan's bracket have touched it)
+		if err := client.DB.QueryRowContext(ctx, "PRAGMA foreign_keys").Scan(&fkAfter); err != nil {
+			fkAfter = -1
+		}
+	}
 	after, err := dumpDB(ctx, client.DB)
 	if err != nil {
 		res.Skip = "dump-after: " + err.Error()
@@ -206,6 +213,8 @@ func runMode(ctx context.Context, c *Case, m Mode, dir string) (res ModeResult) 
 		res.TieObs = tieObs(before, after, res.ErrClass)
 		if res.TieObs == nil {
 			res.TieSkip = "refusal-not-modelled"
+		} else if res.ErrClass == "" && fkAfter >= 0 {
+			res.TieObs = append(res.TieObs, fmt.Sprintf("fk %d", fkAfter))
 		}
 	}
 	return
